@@ -1444,3 +1444,32 @@ Section Complete.
     exact (model_site_error Ms M _ _ _ kept_i64_error kept_usize_error kept_default_error Hs r H).
   Qed.
 End Complete.
+
+(* ------------------------------------------------------------------------------------------------------------ *)
+(* 7. name clashes: DEFAULT <name> where <name> is an item of the component's ENUMERATED and/or a value reference   *)
+(* ------------------------------------------------------------------------------------------------------------ *)
+
+(* the item of the referenced ENUMERATED wins, whatever value references of that name exist anywhere *)
+Lemma enum_default_precedence : forall Ms M referenced tg name tg0 variants e d0 v,
+  definition Ms (lookup_fuel Ms) M referenced = Found (tg0, TEnumerated variants e, d0) ->
+  find (fun v => str_eqb name (fst v)) variants = Some v ->
+  resolve_default Ms M (TRef referenced tg) (Some (Ref name)) = ROk (Some (LEnumVariant referenced (fst v))).
+Proof.
+  intros Ms M referenced tg name tg0 variants e d0 v Hd Hf. cbn [resolve_default]. rewrite Hd, Hf. reflexivity.
+Qed.
+
+(* an ENUMERATED without such an item (e.g. the name is an item of ANOTHER enumerated type): the value reference *)
+Lemma enum_default_other_item : forall Ms M referenced tg name tg0 variants e d0,
+  definition Ms (lookup_fuel Ms) M referenced = Found (tg0, TEnumerated variants e, d0) ->
+  find (fun v => str_eqb name (fst v)) variants = None ->
+  resolve_default Ms M (TRef referenced tg) (Some (Ref name))
+  = (let^ l := resolve_literal Ms M (Ref name) in ROk (Some l)).
+Proof.
+  intros Ms M referenced tg name tg0 variants e d0 Hd Hf. cbn [resolve_default]. rewrite Hd, Hf. reflexivity.
+Qed.
+
+(* a component that is not a type reference (INTEGER, OCTET STRING, ...): the value reference *)
+Lemma non_reference_default_is_value : forall Ms M t name,
+  ref_name t = None ->
+  resolve_default Ms M t (Some (Ref name)) = (let^ l := resolve_literal Ms M (Ref name) in ROk (Some l)).
+Proof. intros Ms M t name H. destruct t; try reflexivity. discriminate H. Qed.
